@@ -60,6 +60,7 @@ Section Law.
     | Extend vs | Iadd vs =>
         match vld_all vld vs with None => (Raise TraitError, []) | Some ys => (Ok (l ++ ys, None), []) end
     | Imul n => (Ok (imul l n, None), [])
+    | ImulQ _ _ => (Raise TypeError, [])                 (* can't multiply sequence by non-int *)
     | Insert i v =>
         match vld v with None => (Raise TraitError, []) | Some y => (Ok (insert l i y, None), []) end
     | Pop oi =>
